@@ -50,6 +50,9 @@ class Encoder(object):
         self.ne = numeric_enums
 
     def value(self, ty, modname, v):
+        r_ = asn.resolve(self.spec, ty, modname)
+        if len(r_.sizes) > 1 and any(x.ext for x in r_.sizes):
+            raise OutOfModel('stacked extensible size')
         r = asn.resolve(self.spec, ty, modname)
         b = r.base
         k = b.kind
@@ -87,6 +90,9 @@ class Encoder(object):
     # clause 10
     def integer(self, r, v):
         rng = r.rng
+        if len(r.rngs) > 1 and any(x.ext for x in r.rngs):
+            # an extensible range applied on top of another range: which of them is OER-visible is not modelled
+            raise OutOfModel('stacked extensible range')
         if rng is None or rng.ext:
             return sint_var(v)
         lb, ub = rng.lo, rng.hi
